@@ -59,7 +59,7 @@ pub open spec fn verify_ok(mb: Metablock, threshold: u32, keys: Seq<&PublicKey>)
     threshold >= 1 && mb.signatures@.len() >= 1 && signed_msg(mb.metadata) is Some
     && good_ids(mb, keys).len() >= threshold
 }
-pub proof fn lemma_last_key_idx(keys: Seq<&PublicKey>, id: KeyId)
+pub proof fn lemma_last_key_idx(keys: Seq<&PublicKey>, id: KeyId)   // [C04,C13]
     ensures -1 <= last_key_idx(keys, id) < keys.len(),
             last_key_idx(keys, id) >= 0 ==> keys[last_key_idx(keys, id)].kid() == id,
             forall|i: int| last_key_idx(keys, id) < i < keys.len() ==> (#[trigger] keys[i]).kid() != id,
@@ -72,7 +72,7 @@ pub proof fn lemma_last_key_idx(keys: Seq<&PublicKey>, id: KeyId)
         }
     }
 }
-pub proof fn lemma_last_sig_idx(sigs: Seq<Signature>, id: KeyId)
+pub proof fn lemma_last_sig_idx(sigs: Seq<Signature>, id: KeyId)   // [C04,C13]
     ensures -1 <= last_sig_idx(sigs, id) < sigs.len(),
             last_sig_idx(sigs, id) >= 0 ==> sigs[last_sig_idx(sigs, id)].kid() == id,
             forall|i: int| last_sig_idx(sigs, id) < i < sigs.len() ==> (#[trigger] sigs[i]).kid() != id,
@@ -86,7 +86,7 @@ pub proof fn lemma_last_sig_idx(sigs: Seq<Signature>, id: KeyId)
     }
 }
 // the pair sequences handed to collect::<HashMap> resolve a repeated id exactly like last_key_idx / last_sig_idx
-pub proof fn lemma_last_index_keys(s: Seq<(&KeyId, &PublicKey)>, keys: Seq<&PublicKey>, id: &KeyId)
+pub proof fn lemma_last_index_keys(s: Seq<(&KeyId, &PublicKey)>, keys: Seq<&PublicKey>, id: &KeyId)   // [C04,C13]
     requires s.len() == keys.len(), forall|i: int| 0 <= i < s.len() ==> *(#[trigger] s[i]).0 == keys[i].kid(),
     ensures trusted_axioms::last_index_of(s, id) == last_key_idx(keys, *id),
     decreases s.len()
@@ -99,7 +99,7 @@ pub proof fn lemma_last_index_keys(s: Seq<(&KeyId, &PublicKey)>, keys: Seq<&Publ
         }
     }
 }
-pub proof fn lemma_last_index_sigs(s: Seq<(&KeyId, &Signature)>, sigs: Seq<Signature>, id: &KeyId)
+pub proof fn lemma_last_index_sigs(s: Seq<(&KeyId, &Signature)>, sigs: Seq<Signature>, id: &KeyId)   // [C04,C13]
     requires s.len() == sigs.len(), forall|i: int| 0 <= i < s.len() ==> *(#[trigger] s[i]).0 == sigs[i].kid(),
     ensures trusted_axioms::last_index_of(s, id) == last_sig_idx(sigs, *id),
     decreases s.len()
